@@ -17,11 +17,11 @@ Section Sound.
   Variable cfuel : nat.
 
   (* the grouping used at each level: the code's collect_fields, which is the
-     specification's CollectFields wherever the selections contain no
-     named-fragment spread *)
+     specification's CollectFields wherever named-fragment spreads occur only
+     at the top level of the selections (and not inside the fragments) *)
   Definition G (tn : str) (sels : list selection) (g : groups) : Prop :=
     collect_for sch frags vs cfuel tn sels = Ok g /\
-    (spread_free sels = true -> SCollect (applies sch tn) frags vs sels g).
+    (top_spreads frags sels = true -> SCollect (applies sch tn) frags vs sels g).
 
   Notation SC := (SComplete sch coerce_args world tyres G).
   Notation SI := (SItems sch coerce_args world tyres G).
@@ -170,7 +170,7 @@ Section Sound.
     apply obind_ok in H as [g [Hg H]]. apply obind_ok in H as [[kvs es] [He H]].
     inversion H; subst; simpl. eapply SS_sel.
     - split; [exact Hg|]. intros Hsf. unfold collect_for in Hg.
-      eapply collect_is_spec_collect; eassumption.
+      eapply collect_is_spec_collect_top; eassumption.
     - eapply exec_groups_spec; [exact IH|exact He].
   Qed.
 End Sound.
